@@ -76,8 +76,9 @@ func (c *cachedRoutes) Set(k string, v *Route) bool {
 
 // Get cached Route by key
 func (c *cachedRoutes) Get(k string) (*Route, bool) {
-	c.lock.RLock()
-	defer c.lock.RUnlock()
+	// Notice: a hit moves the element to front of the list, so need the write lock.
+	c.lock.Lock()
+	defer c.lock.Unlock()
 	defer verifCacheOp(c, "get", k)
 
 	if element, ok := c.hashMap[k]; ok {
